@@ -9,10 +9,9 @@ CONSTANTS
   QS = {2}
   ADVS = {0, 2, 3, 4, 5}
   LENS = {0, 1, 2, 3}
-  RESTART = FALSE
+  MODES = {"asis"}
   DUPOKS = {TRUE}
-  DROPS = TRUE
   PRIVATES = {FALSE}
 INVARIANT Inv
-PROPERTY Live
+PROPERTY LiveAll
 CHECK_DEADLOCK FALSE
